@@ -61,8 +61,8 @@ V_ENSURES(!__CPROVER_return_value || dl->zck->error_state == 0) /*@C05,C12.set_c
 V_ENSURES(!__CPROVER_return_value || !DL_WATCHED(dl) || (g_hu_final == V_OLD(g_hu_final) + 1 && g_fin_total == V_OLD(g_hu_total) && g_fin_seen == V_OLD(g_hu_seen) && g_fin_ptr == V_OLD(g_hu_ptr))) /*@C05.set_chunk_valid.verdict_is_over_everything_hashed_since_the_chunk_was_matched*/
 V_ENSURES(!__CPROVER_return_value || !DL_WATCHED(dl) || V_OLD(dl->tgt_check)->comp_length == 0 || !(g_k1 < (size_t)V_OLD(dl->tgt_check)->digest_size) || g_fin_val == V_OLD(dl->tgt_check)->digest[g_k1]) /*@C05.set_chunk_valid.valid_only_if_every_digest_byte_equals_the_index_digest*/
 V_ENSURES(!__CPROVER_return_value || (WW_SAME && g_wr_bytes[G_IX(DL_FD(dl))] == V_OLD(g_wr_bytes[G_IX(DL_FD(dl))]) && DL_POS(dl) == V_OLD(DL_POS(dl)))) /*@C05.set_chunk_valid.a_verified_chunk_is_not_touched*/
-V_ENSURES(__CPROVER_return_value || (dl->tgt_check == V_OLD(dl->tgt_check) && dl->tgt_check->valid != 1)) /*@C05.set_chunk_valid.false_means_not_marked_valid*/
-V_ENSURES(__CPROVER_return_value || dl->zck->error_state > 0 || (dl->tgt_check->valid == -1 && DL_POS(dl) == SV_LO(dl) + (g_off_t)dl->tgt_check->comp_length && (!WW_IN(DL_FD(dl), SV_LO(dl), dl->tgt_check->comp_length) || (g_ww_hit == V_OLD(g_ww_hit) + 1 && g_ww_val == 0)))) /*@C05.set_chunk_valid.mismatch_means_zero_filled_and_marked_failed*/
+V_ENSURES(__CPROVER_return_value || (dl->tgt_check == V_OLD(dl->tgt_check) && V_OLD(dl->tgt_check)->valid != 1)) /*@C05.set_chunk_valid.false_means_not_marked_valid*/
+V_ENSURES(__CPROVER_return_value || dl->zck->error_state > 0 || (V_OLD(dl->tgt_check)->valid == -1 && DL_POS(dl) == EXT_LO(dl->zck, V_OLD(dl->tgt_check)) + (g_off_t)V_OLD(dl->tgt_check)->comp_length && (!WW_IN(DL_FD(dl), EXT_LO(dl->zck, V_OLD(dl->tgt_check)), V_OLD(dl->tgt_check)->comp_length) || (g_ww_hit == V_OLD(g_ww_hit) + 1 && g_ww_val == 0)))) /*@C05.set_chunk_valid.mismatch_means_zero_filled_and_marked_failed*/
 V_ENSURES(WW_IN(DL_FD(dl), EXT_LO(dl->zck, V_OLD(dl->tgt_check)), V_OLD(dl->tgt_check)->comp_length) || WW_SAME) /*@C05,C17.set_chunk_valid.nothing_outside_the_chunk_extent_is_written*/
 V_ENSURES(WW_SAME || g_ww_val == 0) /*@C05.set_chunk_valid.only_zeros_are_written*/
 V_ENSURES((V_OLD(dl->zck->error_state) > 0 && dl->zck->check_chunk_hash.ctx == V_OLD(dl->zck->check_chunk_hash.ctx) && dl->zck->check_chunk_hash.type == V_OLD(dl->zck->check_chunk_hash.type)) || (dl->zck->check_chunk_hash.ctx == NULL && dl->zck->check_chunk_hash.type == NULL)) /*@C05.set_chunk_valid.running_hash_closed*/
